@@ -37,6 +37,9 @@ def main(tier, replay, t0):
             continue
         for x in c.cfgs:
             if c.gen[x["id"]].get("result") != "ok":
+                v = probes.refusal_violation(c, x, "vertex buffer layout")
+                if v:
+                    viol.append(v)
                 continue
             base = {"case_id": c.id, "wgsl": c.wgsl, "options": x["opt"]}
             if not camp.module_ok(c.id, x["id"]):
@@ -51,7 +54,9 @@ def main(tier, replay, t0):
                 bad = [d for d in probes.unexpected_rejection(camp, c.id, x["id"])
                        if any(k in (d.get("rendered") or d.get("message") or "") for k in
                               ("VertexEntry", "VertexBufferLayout", "VERTEX_ATTRIBUTES",
-                               "vertex_buffer_layout", "VertexStepMode"))]
+                               "vertex_buffer_layout", "VertexStepMode",
+                               "offset: std::mem::offset_of!", "offset : std :: mem :: offset_of !",
+                               "shader_location"))]
                 if bad:
                     viol.append(Violation("vertex-helpers-do-not-compile", bad[0].get("code")
                                           or "?", "the module's vertex helpers are rejected by "
